@@ -47,6 +47,10 @@ func SortVersions(vs []Version) {
 			// Does this make any sense at all?
 			return vs[i].Version < vs[j].Version
 		}
+		if vi.Compare(vj) == 0 {
+			// Different spellings of one version: keep the order deterministic.
+			return vs[i].Version < vs[j].Version
+		}
 		return vi.Compare(vj) < 0
 	})
 }
